@@ -8,6 +8,11 @@ def task(kind, ident, marker_dir, delay):
     time.sleep(delay)
     if kind == "die":
         os._exit(33)
+    if kind == "dielock":
+        # the process is killed inside core.update_progress, i.e. while it holds the lock of the shared progress counter
+        from bio2zarr import core
+        core._progress_counter.get_lock().acquire()
+        os._exit(34)
     if kind == "sysexit":
         import sys
         sys.exit(101)
